@@ -132,7 +132,9 @@ class Ctx:
         theorems = [t for t in thms]
         self.cov['obligations'] += len(theorems)
         self.cov['theorems'] += theorems
-        cmd = f'make -j16 theories/Props/{props}.vo' + ''.join(f' {v}' for v in extra_vo)
+        # the executable model files used by the cases files are rebuilt too (they may not be dependencies of the Props file)
+        models = [f'theories/{d}/{f[:-2]}.vo' for d in ('Gen', 'Model') for f in sorted(os.listdir(os.path.join(TH, d))) if f.endswith('.v')]
+        cmd = f'make -k -j16 theories/Props/{props}.vo ' + ' '.join(models) + ''.join(f' {v}' for v in extra_vo)
         self.cov['checker_cmd'] = (f'cd {COQ} && timeout {COQ_TIMEOUT} {cmd} && coqc -Q theories SS theories/Props/{props}.v'
                                    '   # Coq 8.16.1, full .vo build')
         with BuildLock():
